@@ -71,6 +71,7 @@ func runC14(w *World, r *Report) {
 		// it, and pool buffers that share one backing array grow into each other
 		r.Rule("owns-memory", "nothing a decoder returns points into its input (the C12 may-alias rule): the reader goroutine refills the frame buffer while the consumer holds the message", 100)
 		r.Rule("pool-disjoint", "every buffer put into the stream's pool has backing storage of its own (the C10 rule)", 1)
+		r.Rule("handoff", "a frame buffer has one owner at a time: the reader does not touch it after the hand-off, the parser returns it to the pool exactly once, on every path (the C10 typestate rule) — a buffer that is in the pool twice is filled by the reader while a parser still reads it", 2)
 		{
 			// (sub-reports under the other properties' names: their own imports of this property's rules test
 			// the name and would otherwise come back here)
@@ -85,7 +86,7 @@ func runC14(w *World, r *Report) {
 			r3 := NewReport("C10", r.Tier)
 			runC10(w, r3)
 			for _, o := range r3.Obs {
-				if o.Rule == "pool-disjoint" {
+				if o.Rule == "pool-disjoint" || o.Rule == "handoff" {
 					r.Add(o)
 				}
 			}
